@@ -621,7 +621,7 @@ func drawStatus(rng *rand.Rand, front string) St {
 	return St{Code: code, Msg: msgOf(mc, code), MsgC: mc, Det: rng.Intn(3)}
 }
 
-var mdClasses = []string{"none", "one", "multi", "bin", "mixed", "punct", "bin-ctl", "bin-high", "bin-printable", "empty", "bin-long", "long"}
+var mdClasses = []string{"none", "one", "multi", "bin", "mixed", "punct", "bin-ctl", "bin-high", "bin-printable", "empty", "bin-long", "long", "grpc-prefixed", "reserved-lookalike", "mixed-case"}
 
 func drawMD(rng *rand.Rand, class string) []KV {
 	binv := func() []byte {
@@ -643,6 +643,14 @@ func drawMD(rng *rand.Rand, class string) []KV {
 		return b
 	}
 	switch class {
+	case "grpc-prefixed": // not protocol headers, although they start like some
+		return []KV{{"grpc-trace-bin", rangeBytes(0x00, 0xff, 8+rng.Intn(20))}, {"grpc-tags-bin", []byte{0, 1, 2, 0xfe}},
+			{"grpc-previous-rpc-attempts", []byte("2")}, {"grpc-foo", []byte("bar")}, {"grpc-foo-bin", []byte{0xff, 0x00}}}
+	case "reserved-lookalike": // share a prefix with reserved keys
+		return []KV{{"content-typex", []byte("a/b")}, {"grpc-statusx", []byte("9")}, {"grpc-messagex", []byte("m")}, {"grpc-encodingx", []byte("gzip")},
+			{"grpc-timeout-x", []byte("1S")}, {"te-x", []byte("trailers")}, {"user-agent-x", []byte("ua/1")}}
+	case "mixed-case": // spelled in upper / mixed case by the client (the raw fronts send it that way)
+		return []KV{{"X-VF-UPPER", []byte("u")}, {"x-Vf-MiXed", []byte("m")}, {"Grpc-Upper-Case", []byte("g")}, {"X-Vf-Mixed-BIN", []byte{1, 0xff}}}
 	case "bin-ctl": // control bytes only
 		return []KV{{"x-vf-c-bin", rangeBytes(0x00, 0x1f, 1+rng.Intn(8))}, {"x-vf-c-bin", []byte{0x0a, 0x0d, 0x00}}}
 	case "bin-high": // DEL and bytes with the high bit set (never valid ASCII)
